@@ -27,10 +27,24 @@ def crossings(vx, vy, x, y, k):
     return sum(1 for i in range(k) if edge_crosses(vx, vy, x, y, i, n))
 
 
+def odd_crossings(vx, vy, x, y, k):
+    """is the number of crossing edges among edges 0 .. k-1 odd?  (the same recursion as `crossings`, kept as a truth value:
+    false for k = 0, flipped by every crossing edge; proofs about parity then need no arithmetic modulo 2)"""
+    n = len(vx)
+    if vprim.SYMBOLIC:
+        c = vprim.uf('oddcross', 'bool', vx, vy, x, y, k)
+        vprim.fact(vprim.uf('oddcross', 'bool', vx, vy, x, y, 0) == False)        # noqa: E712
+        if not (isinstance(k, int) and k <= 0):
+            prev = vprim.uf('oddcross', 'bool', vx, vy, x, y, k - 1)
+            vprim.fact(vprim.implies(k >= 1, c == (prev != edge_crosses(vx, vy, x, y, k - 1, n))))
+        return c
+    return crossings(vx, vy, x, y, k) % 2 == 1
+
+
 def crossings_odd(vx, vy, x, y):
     if vprim.SYMBOLIC:
         p = vprim.uf('pip', 'bool', vx, vy, x, y)
-        vprim.fact(p == (crossings(vx, vy, x, y, len(vx)) % 2 == 1))
+        vprim.fact(p == odd_crossings(vx, vy, x, y, len(vx)))
         return p
     n = len(vx)
     odd = False
